@@ -12,7 +12,7 @@ pub use self::recursive_page_table::verif_hooks as verif_recursive_hooks;
 use crate::structures::paging::{
     frame_alloc::{FrameAllocator, FrameDeallocator},
     page::PageRangeInclusive,
-    page_table::PageTableFlags,
+    page_table::{PageTableEntry, PageTableFlags},
     Page, PageSize, PhysFrame, Size1GiB, Size2MiB, Size4KiB,
 };
 use crate::{PhysAddr, VirtAddr};
@@ -21,6 +21,15 @@ mod mapped_page_table;
 mod offset_page_table;
 #[cfg(all(feature = "instructions", target_arch = "x86_64"))]
 mod recursive_page_table;
+
+/// Returns the physical address stored in a huge page (2MiB or 1GiB) entry.
+///
+/// Bit 12 of such an entry is the PAT flag ([`PageTableFlags::PAT_HUGE_PAGE`]) and not part of the
+/// frame address, so it must be masked out before the address is interpreted as a frame.
+#[inline]
+pub(crate) fn huge_page_addr(entry: &PageTableEntry) -> PhysAddr {
+    PhysAddr::new(entry.addr().as_u64() & !PageTableFlags::PAT_HUGE_PAGE.bits())
+}
 
 /// An empty convencience trait that requires the `Mapper` trait for all page sizes.
 pub trait MapperAllSizes: Mapper<Size4KiB> + Mapper<Size2MiB> + Mapper<Size1GiB> {}
